@@ -28,7 +28,8 @@ META = {
             "the grids that has no absolute tolerance; every allclose/isclose applied to x-grid values (XGrid.__eq__, "
             "get_interpolation, manipulate.xgrid_check) passes an explicit atol. (5) GUARDS: grids with repeated points or "
             "fewer than two points, degrees below one and grids with at most `degree` points are refused (enumerated)."
-            " An accepted grid is stored in ascending order; the internal points in another order as target grid give the permutation matrix, not the identity.",
+            " An accepted grid is stored in ascending order; the internal points in another order as target grid give the permutation matrix, not the identity."
+            " A logarithmic, a linear and again a logarithmic dispatcher over the same points asked for one target grid in one evaluator each return the values of their OWN basis functions.",
     "note": "Floating-point accuracy of the sums is not decided; the algebraic statements are, for all nodes.",
     "technique": "partial evaluation with symbolic nodes + polynomial identity testing; exhaustive enumeration of block layouts; tolerance call-site rule",
     "engine": "sa",
@@ -195,12 +196,13 @@ def run(chk):
     g = Obj(xg_cls)
     g.attrs.update(raw=Arr.from_nested([dag.sym(f"g{i}") for i in range(3)]), grid=Arr.from_nested([dag.sym(f"g{i}") for i in range(3)]))
     pe.overrides[f"{xg_cls.qname}.__len__"] = lambda p, a, k: 3
-    d.attrs.update(basis=basis, xgrid=g)
+    d.attrs.update(basis=basis, xgrid=g, log=True, polynomial_degree=2)
     tg = [dag.sym("t0"), dag.sym("t1")]
     R = pe.apply(pe.getattr(d, "get_interpolation"), [tg], {})
     ok = isinstance(R, Arr) and tuple(R.shape) == (2, 3) and all(R[i, j] is dag.fn("b", dag.const(j), tg[i]) for i in range(2) for j in range(3))
     chk.decide(ok, "reinterpolation-matrix", fgi.qname, "get_interpolation(target) is not R[i][j] = basis_j(target_i)", where=fgi.where, how="PE")
     permuted_target_rule(chk, src, "reinterpolation-matrix")
+    two_dispatchers_rule(chk, src, "reinterpolation-matrix")
     n_tol = 0
     for mod in ("eko.interpolation", "eko.io.manipulate"):
         for q, f in src.funcs.items():
@@ -259,6 +261,43 @@ def run(chk):
     chk.ok("invalid-grids-and-degrees-are-refused", disp.qname, "6 x 9 (points, degree) combinations", how="exhaustive PE")
     chk.note(lagrange=n_lag, layouts=n_lay, files=["src/eko/interpolation.py", "src/eko/io/manipulate.py"])
     chk.explanation = "Lagrange identity (symbolic nodes), block layouts (exhaustive), evaluation semantics, tolerance rule, guards."
+
+
+def two_dispatchers_rule(chk, src, rule):
+    """two interpolators over the SAME points, one logarithmic and one linear, asked for the same target grid one after the other in
+    one process: each matrix is made of the basis functions of the dispatcher that was asked (nothing computed for the first one is
+    handed out for the second)"""
+    xg_cls = src.cls(f"{IP}.XGrid")
+    disp = src.cls(f"{IP}.InterpolatorDispatcher")
+    bf_cls = src.cls(f"{IP}.BasisFunction")
+    fgi = disp.methods["get_interpolation"]
+    pe = mk_pe(src)
+    pe.overrides[f"{bf_cls.qname}.evaluate_x"] = lambda p, a, k: dag.fn("b" + a[0].attrs["tag"], dag.const(a[0].attrs["j"]), dag.tonode(a[1]))
+    pts = [Fraction(1, 10), Fraction(1, 2), Fraction(1)]
+    tg = [Fraction(1, 5), Fraction(3, 4)]
+    bad = None
+    for tag, log in (("L", True), ("X", False), ("L", True)):
+        g = pe.instantiate(xg_cls.qname, [list(pts)], {"log": log})
+        d = Obj(disp)
+        basis = []
+        for j in range(3):
+            b = Obj(bf_cls)
+            b.attrs.update(j=j, tag=tag)
+            basis.append(b)
+        d.attrs.update(basis=basis, xgrid=g, log=log, polynomial_degree=1)
+        try:
+            R = pe.apply(pe.getattr(d, "get_interpolation"), [Arr.from_nested(list(tg))], {})
+            ok = isinstance(R, Arr) and tuple(R.shape) == (2, 3) and all(R[i, j] is dag.fn("b" + tag, dag.const(j), dag.tonode(tg[i])) for i in range(2) for j in range(3))
+            got = dag.short(dag.tonode(R[0, 0])) if isinstance(R, Arr) else repr(R)[:40]
+        except PERaise as e:
+            ok, got = False, f"raises {e}"
+        if not ok and bad is None:
+            bad = (log, got)
+    chk.decide(bad is None, rule, fgi.qname,
+               f"dispatchers over the same points asked in the order logarithmic, linear, logarithmic for one target grid: the {'logarithmic' if bad and bad[0] else 'linear'} "
+               f"one returns entries like {bad[1] if bad else ''}; required the values of ITS OWN basis functions at the target points (a matrix remembered from the "
+               f"other kind of interpolation does not reproduce polynomials in this one's variable)", where=fgi.where, instance="log then linear, same points",
+               how="PE of consecutive requests in one evaluator, tagged basis functions")
 
 
 def permuted_target_rule(chk, src, rule):
